@@ -118,7 +118,7 @@ static inline int ring_getc(struct ring_head *r, const char *buffer)
         return -1;
     char c = *(buffer + r->tail);
     ring_move_tail_one(r);
-    return c;
+    return (unsigned char)c; /* 0..255: a stored 0xFF must not look like -1 */
 }
 
 static inline int ring_read(struct ring_head *r,
